@@ -2,11 +2,11 @@
   C16 — apply rules create exactly the matching objects, with or without the name-index fast path.
 
   Executable transcription of
-    lib/config/applyrule-targeted.cpp:63-266   shape recognition (GetTargetHosts/GetTargetServices/…)
+    lib/config/applyrule-targeted.cpp:63-273   shape recognition (GetTargetHosts/GetTargetServices/…)
     lib/config/applyrule.cpp:60-82             AddRule: targeted index or regular list
     lib/config/config_parser.yy:466-540,1137-1243  assign/ignore combination
     lib/icinga/service-apply.cpp:20-133 (+ notification-, dependency-, scheduleddowntime-apply.cpp: same shape)
-    lib/remote/filterutility.cpp:84-118,272-336    EvaluateFilter, API fast path
+    lib/remote/filterutility.cpp:84-141,296-360    EvaluateFilter, FilterVarsCollideWithTarget, API fast path
     lib/config/expression.cpp:111-123,201-207,319-339,419-447,740-749  evaluation of the filter operators
     lib/base/value.cpp:184-213, value-operators.cpp:130-181, lib/config/vmops.hpp:236-247
 
@@ -17,10 +17,8 @@
   the evaluation of the apply rules rejects the whole configuration.
 
   Not modelled: the evaluation of the rule body, name collisions between created objects ("re-defined"; the
-  driver rejects such cases explicitly), `ignore_on_error`, zones/packages, template imports, and the cascade
-  "services created by `apply Service` become targets of `to Service` rules" (configitem.cpp:586-588) — the
-  inventory is the set of targets as given; the generator avoids the cascade and the driver skips such cases.
-  Core Lean only.
+  driver rejects such cases explicitly), `ignore_on_error`, zones/packages, template imports, values of opaque atoms
+  on services that only exist through `apply Service` (the generator uses no atoms there).  Core Lean only.
 -/
 namespace Icinga.C16
 
@@ -130,7 +128,7 @@ def evalFilter (env : Env) (e : Expr) : Option Bool := (eval env e).map Val.trut
 /-- The `constants` dictionary argument: absent (`nullptr`) for apply rules, `filter_vars` for API queries. -/
 abbrev Consts := Option (String → Option Val)
 
-/-- `ApplyRule::GetConst` (applyrule-targeted.cpp:249-266). -/
+/-- `ApplyRule::GetConst` (applyrule-targeted.cpp:256-273). -/
 def getConst (consts : Consts) : Expr → Option Val
   | .lit v => some v
   | .var x => match consts with
@@ -138,18 +136,18 @@ def getConst (consts : Consts) : Expr → Option Val
     | none => none
   | _ => none
 
-/-- `ApplyRule::GetConstString` (applyrule-targeted.cpp:239-244). -/
+/-- `ApplyRule::GetConstString` (applyrule-targeted.cpp:246-251). -/
 def getConstString (consts : Consts) (e : Expr) : Option String :=
   match getConst consts e with
   | some (.str s) => some s
   | _ => none
 
-/-- `ApplyRule::IsNameIndexer` (applyrule-targeted.cpp:217-234). -/
+/-- `ApplyRule::IsNameIndexer` (applyrule-targeted.cpp:224-241). -/
 def isNameIndexer (consts : Consts) (lcType : String) : Expr → Bool
   | .idx (.var x) f => x == lcType && getConstString consts f == some "name"
   | _ => false
 
-/-- `ApplyRule::GetComparedName` (applyrule-targeted.cpp:192-212). Note: when the first operand is the name
+/-- `ApplyRule::GetComparedName` (applyrule-targeted.cpp:199-219). Note: when the first operand is the name
     indexer the second one decides alone; the operands are not tried the other way round. -/
 def getComparedName (consts : Consts) (lcType : String) : Expr → Option String
   | .eq a b =>
@@ -158,7 +156,7 @@ def getComparedName (consts : Consts) (lcType : String) : Expr → Option String
     else none
   | _ => none
 
-/-- `ApplyRule::GetTargetHosts` (applyrule-targeted.cpp:99-116). -/
+/-- `ApplyRule::GetTargetHosts` (applyrule-targeted.cpp:106-123). -/
 def getTargetHosts (consts : Consts) : Expr → Option (List String)
   | .or a b =>
     match getTargetHosts consts a, getTargetHosts consts b with
@@ -166,7 +164,7 @@ def getTargetHosts (consts : Consts) : Expr → Option (List String)
     | _, _ => none
   | e => (getComparedName consts "host" e).map fun n => [n]
 
-/-- `ApplyRule::GetTargetService` (applyrule-targeted.cpp:155-181). -/
+/-- `ApplyRule::GetTargetService` (applyrule-targeted.cpp:162-188). -/
 def getTargetService (consts : Consts) : Expr → Option (String × String)
   | .and a b =>
     match getComparedName consts "host" a with
@@ -177,7 +175,7 @@ def getTargetService (consts : Consts) : Expr → Option (String × String)
       | none => none
   | _ => none
 
-/-- `ApplyRule::GetTargetServices` (applyrule-targeted.cpp:127-144). -/
+/-- `ApplyRule::GetTargetServices` (applyrule-targeted.cpp:134-151). -/
 def getTargetServices (consts : Consts) : Expr → Option (List (String × String))
   | .or a b =>
     match getTargetServices consts a, getTargetServices consts b with
@@ -201,6 +199,12 @@ inductive ForVal
   | other                             -- neither array nor dictionary: no instances
   deriving Repr, Inhabited
 
+/-- `for (kvar in term)` (vvar = "") / `for (kvar => vvar in term)`; `term`: the value of the term per target. -/
+structure Loop where
+  term : Val → ForVal
+  kvar : String
+  vvar : String := ""
+
 structure Rule where
   src : SrcType
   tgt : TgtType
@@ -209,12 +213,16 @@ structure Rule where
   assign : List Expr
   /-- the `ignore where` expressions, in source order -/
   ignore : List Expr
-  /-- the value of the `for` term per target; `none`: the rule has no `for` -/
-  fterm : Option (Val → ForVal)
-  fkvar : String := ""
-  fvvar : String := ""
+  /-- the `for (k [=> v] in term)` header; `none`: the rule has no `for`. The parser sets the term and the
+      variable names together or not at all (config_parser.yy `apply_for_specifier`). -/
+  loop : Option Loop
   /-- `use (…)` closure variables (ApplyRule::m_Scope) -/
   scope : List (String × Val) := []
+
+/-- ApplyRule::m_FTerm / m_FKVar / m_FVVar -/
+def Rule.fterm (r : Rule) : Option (Val → ForVal) := r.loop.map (·.term)
+def Rule.fkvar (r : Rule) : String := (r.loop.map (·.kvar)).getD ""
+def Rule.fvvar (r : Rule) : String := (r.loop.map (·.vvar)).getD ""
 
 /-- Several `assign where` (resp. `ignore where`) are OR-ed, left-nested (config_parser.yy:466-540). -/
 def orAll : List Expr → Option Expr
@@ -305,15 +313,43 @@ def instEnv (w : World) (r : Rule) (t : Val) (i : Inst) : Env :=
     other := w.other t (instKV i).1 (instKV i).2
     field := w.field }
 
-/-- A created object: which rule (by the caller's label), on which target, for which instance. The loop
-    bindings are kept because the object's scope (`builder.SetScope(frame.Locals->ShallowClone())`) and
-    hence its attributes depend on them. -/
+def targetName : Val → String
+  | .host n => n
+  | .service h s => h ++ "!" ++ s
+  | _ => "?"
+
+def targetHostName : Val → String
+  | .host n => n
+  | .service h _ => h
+  | _ => "?"
+
+def targetServiceName : Val → Option String
+  | .service _ s => some s
+  | _ => none
+
+/-- the value the rule body sees under the loop variable name `x` (`empty`: the rule has no such variable) -/
+def lookupBind (binds : List (String × Val)) (x : String) : Val :=
+  if x = "" then .empty else (bindAll binds (fun _ => none) x).getD .empty
+
+/-- A created object: which rule (by the caller's label), of which type, on which target, its short name
+    (rule name + instance key). The loop bindings are kept because the object's scope
+    (`builder.SetScope(frame.Locals->ShallowClone())`) and hence its attributes depend on them; `k`/`v` are
+    the values of the loop variables as the body sees them. -/
 structure Created where
   rule : Nat
+  src : SrcType
   target : Val
+  name : String
   key : String
   binds : List (String × Val)
+  k : Val
+  v : Val
   deriving DecidableEq, Repr
+
+/-- service-apply.cpp:92-97,112 (name), :31-50 (builder). -/
+def mkCreated (id : Nat) (r : Rule) (t : Val) (i : Inst) : Created :=
+  { rule := id, src := r.src, target := t, name := r.name ++ i.key, key := i.key, binds := i.binds
+    k := lookupBind i.binds r.fkvar, v := lookupBind i.binds r.fvvar }
 
 inductive Outcome
   | error
@@ -323,10 +359,10 @@ inductive Outcome
 
 /-- `EvaluateApplyRuleInstance` (service-apply.cpp:19-56). -/
 def evalInstance (w : World) (skipFilter : Bool) (id : Nat) (r : Rule) (t : Val) (i : Inst) : Outcome :=
-  if skipFilter then .create ⟨id, t, i.key, i.binds⟩
+  if skipFilter then .create (mkCreated id r t i)
   else match evalFilter (instEnv w r t i) r.filter with
     | none => .error
-    | some true => .create ⟨id, t, i.key, i.binds⟩
+    | some true => .create (mkCreated id r t i)
     | some false => .skip
 
 /-- `EvaluateApplyRule` (service-apply.cpp:58-118). -/
@@ -335,9 +371,12 @@ def evalRule (w : World) (skipFilter : Bool) (id : Nat) (r : Rule) (t : Val) : L
   | none => [.error]
   | some is => is.map (evalInstance w skipFilter id r t)
 
-/-- `ApplyRule::AddTargetedRule` (applyrule-targeted.cpp:63-88): the names under which a rule is indexed, as
-    target objects; `none`: the rule goes to the regular list (applyrule.cpp:77-79). -/
+/-- `ApplyRule::AddTargetedRule` (applyrule-targeted.cpp:63-95): the names under which a rule is indexed, as
+    target objects; `none`: the rule goes to the regular list (applyrule.cpp:77-79). A rule with `for` is never
+    indexed (applyrule-targeted.cpp:65-70, commit b11cb6d: its for-term and loop variables are evaluated on
+    every object before the filter). -/
 def targetedNames (r : Rule) : Option (List Val) :=
+  if r.fterm.isSome then none else
   match r.tgt with
   | .host => (getTargetHosts none r.filter).map fun l => l.map Val.host
   | .service => (getTargetServices none r.filter).map fun l => l.map fun p => Val.service p.1 p.2
@@ -395,6 +434,31 @@ def loadResult (os : List Outcome) : LoadResult :=
 def plain (w : World) (rules : Rules) (inv : Inventory) : LoadResult := loadResult (plainOutcomes w rules inv)
 def indexed (w : World) (rules : Rules) (inv : Inventory) : LoadResult := loadResult (indexedOutcomes w rules inv)
 
+/-! ### the cascade: services created by `apply Service` are targets of the `to Service` rules
+
+  `ConfigItem::CommitNewItems` commits the generated items recursively (configitem.cpp:586-588): the created
+  services get their own `CreateChildObjects` round.  `apply Service` only targets hosts, so one extra round
+  suffices; the hosts are not evaluated again in it.  Evaluating every rule on the extended inventory yields
+  the union of both rounds (the host outcomes do not depend on the services). -/
+
+/-- the (host, short name) pairs of the services an outcome list created -/
+def createdServices (os : List Outcome) : List (String × String) :=
+  os.filterMap fun o =>
+    match o with
+    | .create c => if c.src = .service then some (targetHostName c.target, c.name) else none
+    | _ => none
+
+def extend (inv : Inventory) (os : List Outcome) : Inventory :=
+  { hosts := inv.hosts, services := inv.services ++ createdServices os }
+
+/-- a whole configuration load with every filter evaluated -/
+def plainFull (w : World) (rules : Rules) (inv : Inventory) : LoadResult :=
+  plain w rules (extend inv (plainOutcomes w rules inv))
+
+/-- a whole configuration load as the code does it -/
+def indexedFull (w : World) (rules : Rules) (inv : Inventory) : LoadResult :=
+  indexed w rules (extend inv (indexedOutcomes w rules inv))
+
 /-! ## API queries (lib/remote/filterutility.cpp:272-336) -/
 
 /-- the navigation fields of Checkable (checkable.ti:30-51,182) -/
@@ -431,11 +495,24 @@ def apiSlow (w : World) (fvars : Option (List (String × Val))) (ty : TgtType) (
     | some false, some l => some l
     | _, _ => none) (some [])
 
+/-- the names `FilterUtility::EvaluateFilter` binds for a target of the type -/
+def apiBound : TgtType → List String
+  | .host => ["obj", "host"] ++ navNames
+  | .service => ["obj", "service", "host"] ++ navNames
+
+/-- `FilterVarsCollideWithTarget` (filterutility.cpp:119-141, commit 77a9c63): a `filter_vars` key that evaluation
+    overwrites with the target is not a constant. -/
+def fvarsCollide (ty : TgtType) : Option (List (String × Val)) → Bool
+  | none => false
+  | some l => l.any fun p => (apiBound ty).contains p.1
+
 /-- `FilterUtility::GetFilterTargets` for `{type, filter, filter_vars}` with the default provider and no
-    permission filter: recognised filters are answered from the name index — one entry per named object
-    that exists, in the order (and multiplicity) of the filter's disjuncts. -/
+    permission filter (filterutility.cpp:296-360): unless a filter var collides, recognised filters are answered
+    from the name index — one entry per named object that exists, in the order (and multiplicity) of the
+    filter's disjuncts. -/
 def apiTargets (w : World) (fvars : Option (List (String × Val))) (ty : TgtType) (e : Expr) (inv : Inventory) :
     Option (List Val) :=
+  if fvarsCollide ty fvars then apiSlow w fvars ty e inv else
   match ty with
   | .host =>
     match getTargetHosts (apiConsts fvars) e with
